@@ -129,6 +129,8 @@ type RequestSpec struct {
 	// LinearFeed, when set, replaces the fork-free block source of the tier1 linear phase.
 	LinearFeed func(ctx context.Context, h bstream.Handler, start, stop uint64, cursor string) error `json:"-"`
 	StuckAfter      time.Duration         `json:"-"` // no job in flight and no data message for this long => stuck (default 20s)
+	// CursorResolver overrides the resolver of non-final start cursors (default: fork-free chain).
+	CursorResolver func(ctx context.Context, cur *bstream.Cursor) (junction, head bstream.BlockRef, err error) `json:"-"`
 	// Preload switches the walker's background preloading of the next cached-output file (hook H8).
 	Preload bool `json:"preload,omitempty"`
 	Debug           []string              `json:"-"`
@@ -259,6 +261,9 @@ type linearStream struct {
 	final  uint64
 	tier1  bool
 	cursor string
+	// cursorIsTarget: the stream starts at `start` and merely passes through the cursor's block (stream.WithTargetCursor);
+	// otherwise it resumes right after the cursor's block (stream.WithCursor)
+	cursorIsTarget bool
 }
 
 func (s *linearStream) Run(ctx context.Context) error {
@@ -278,7 +283,7 @@ func (s *linearStream) Run(ctx context.Context) error {
 		}
 	}
 	start := s.start
-	if s.cursor != "" {
+	if s.cursor != "" && !s.cursorIsTarget {
 		if cur, err := bstream.CursorFromOpaque(s.cursor); err == nil && cur.Block.Num()+1 > start {
 			start = cur.Block.Num() + 1
 		}
@@ -349,7 +354,7 @@ func (rs *runState) tier1StreamFactory(ctx context.Context, h bstream.Handler, s
 		feed := rs.spec.LinearFeed
 		return &feedStream{f: func(ctx context.Context) error { return feed(ctx, h, uint64(startBlockNum), stopBlockNum, cursor) }}, nil
 	}
-	return &linearStream{rs: rs, h: h, start: uint64(startBlockNum), stop: stopBlockNum, final: rs.spec.Final, tier1: true, cursor: cursor}, nil
+	return &linearStream{rs: rs, h: h, start: uint64(startBlockNum), stop: stopBlockNum, final: rs.spec.Final, tier1: true, cursor: cursor, cursorIsTarget: cursorIsTarget}, nil
 }
 
 func (rs *runState) tier2StreamFactory(ctx context.Context, h bstream.Handler, startBlockNum int64, stopBlockNum uint64, cursor string, finalBlocksOnly bool, cursorIsTarget bool, logger *zap.Logger, extraOpts ...stream.Option) (service.Streamable, error) {
@@ -604,6 +609,17 @@ func (c *Cluster) Run(spec RequestSpec) *Result {
 		res.Err = fmt.Errorf("validate request: %w", err)
 	} else {
 		svc := service.TestNewService(rc, spec.Final, rs.tier1StreamFactory)
+		// non-final start cursors: on the fork-free chain every block b<n> is canonical (its own junction)
+		head := bstream.NewBlockRef(BlockID(c.Head), c.Head)
+		svc.VerifSetCursorResolver(func(ctx context.Context, cur *bstream.Cursor) (bstream.BlockRef, bstream.BlockRef, error) {
+			if spec.CursorResolver != nil {
+				return spec.CursorResolver(ctx, cur)
+			}
+			if cur.Block.ID() != BlockID(cur.Block.Num()) {
+				return nil, nil, fmt.Errorf("harness: block %s is not on the fork-free chain", cur.Block)
+			}
+			return cur.Block, head, nil
+		})
 		rs.touch()
 		returned := make(chan struct{})
 		stuckAfter := spec.StuckAfter
